@@ -35,6 +35,15 @@ func main() {
 		for _, id := range fw.All() {
 			fmt.Println(id)
 		}
+	case "describe":
+		var out []map[string]interface{}
+		for _, id := range fw.All() {
+			ck := fw.Lookup(id)
+			out = append(out, map[string]interface{}{"id": ck.ID, "level": ck.Level, "technique": ck.Technique, "rule": ck.Rule,
+				"assumptions": ck.Assumptions, "floors": ck.Floors, "quick_cases": ck.Cases("quick"), "thorough_cases": ck.Cases("thorough"), "race": ck.Race})
+		}
+		b, _ := json.MarshalIndent(out, "", " ")
+		fmt.Println(string(b))
 	case "run":
 		ck := fw.Lookup(*prop)
 		if ck == nil {
